@@ -5,6 +5,7 @@ import NgoVerif.Proofs.C08sem
 import NgoVerif.Proofs.StrongEq
 import NgoVerif.Proofs.C08impl
 import NgoVerif.Proofs.C08anon
+import NgoVerif.Proofs.C08anonStm
 import NgoVerif.Proofs.C10multi
 /-!
 # C08 — cleanup deletes only literals and rules that cannot matter
@@ -243,6 +244,48 @@ theorem check : anonCheck A = true := by
 example (P : Params) (pre post : Prog) : StrongEq (stdParams P) (pre ++ A.src :: post) (pre ++ A.res :: post) :=
   anon_strongEq P A check pre post
 end C08anonEx
+
+
+open Proofs.C08anonCond Proofs.C08anonStm in
+/-- **the same inside a condition**: a weaker copy deleted from the condition of a conditional literal of the body, or
+from the condition of an element of a body aggregate, is a strong equivalence in any program - the local environment of
+the condition gives the fresh variables the values of the stronger copy.  `condCheck` gets the variables of the rule
+outside of the shortened condition (`outsideClit` / `outsideBagg`): the fresh ones are in none of them. -/
+theorem C08_remove_weaker_copy_in_condition (P : Sem.Params) (A : CondAnon) (l c : Nat) (h : Head) (pre post : List BLit)
+    (cfull : List Lit) (hsame : sameLitList cfull (A.qLit :: A.cond) = true) (ctxPre ctxPost : Prog) :
+    (∀ hd, condCheck A (outsideClit h pre post hd) = true →
+      Sem.StrongEq (Sem.stdParams P) (ctxPre ++ .rule l c h (pre ++ .clit (hd, cfull) :: post) :: ctxPost)
+        (ctxPre ++ .rule l c h (pre ++ .clit (hd, A.cond) :: post) :: ctxPost)) ∧
+    (∀ s ln cl lg rg f epre epost ts, condCheck A (outsideBagg h pre post lg rg epre epost ts) = true →
+      Sem.StrongEq (Sem.stdParams P)
+        (ctxPre ++ .rule l c h (pre ++ .lit (s, .bagg ln cl lg f (epre ++ (ts, cfull) :: epost) rg) :: post) :: ctxPost)
+        (ctxPre ++ .rule l c h (pre ++ .lit (s, .bagg ln cl lg f (epre ++ (ts, A.cond) :: epost) rg) :: post) :: ctxPost)) :=
+  ⟨fun hd hc => Proofs.C10stm.models_swap P _ _ (fun H T => clit_stmSat P A l c h pre post hd cfull hsame hc H T) ctxPre ctxPost,
+   fun s ln cl lg rg f epre epost ts hc =>
+    Proofs.C10stm.models_swap P _ _ (fun H T => bagg_stmSat P A l c h pre post s ln cl lg rg f epre epost ts cfull hsame hc H T)
+      ctxPre ctxPost⟩
+
+/-! non-vacuity: `ok(X) :- d(X), 1 <= #sum { 1,Y : b(X,Y), b(X,_) }.` -/
+namespace C08condEx
+open Proofs.C08anonCond Proofs.C08anonStm Proofs.C08anon Sem
+def A : CondAnon :=
+  { cond := [(.pos, .sym (.fn "b" [.var "X", .var "Y"] false))], pn := "b", sargs := [.var "X", .var "Y"],
+    targs := [.var "X", .var "_#1"], F := ["_#1"] }
+def hd : Head := .lit (.pos, .sym (.fn "ok" [.var "X"] false))
+def pre : List BLit := [.lit (.pos, .sym (.fn "d" [.var "X"] false))]
+set_option maxRecDepth 4000 in
+theorem check : condCheck A (outsideBagg hd pre [] (some ⟨.le, .sym (.num 1)⟩) none [] [] [.sym (.num 1), .var "Y"]) = true ∧
+    sameLitList [(.pos, .sym (.fn "b" [.var "X", .var "Y"] false)), A.qLit] (A.qLit :: A.cond) = true := by
+  simp [condCheck, sameLitList, A, hd, pre, CondAnon.pLit, CondAnon.qLit, outsideBagg, isFresh, freshNames, litEqb, atomEqb, termsEqb,
+    termEqb, litsTerms, litTerms, Atom.terms, Term.vars, Head.vars, Head.terms, BLit.vars, BLit.terms, optGuardTerms, bElemsTerms]
+example (P : Params) (ctx : Prog) :
+    StrongEq (stdParams P)
+      (ctx ++ .rule 1 1 hd (pre ++ .lit (.pos, .bagg 1 1 (some ⟨.le, .sym (.num 1)⟩) .sum
+        ([] ++ ([.sym (.num 1), .var "Y"], [(.pos, .sym (.fn "b" [.var "X", .var "Y"] false)), A.qLit]) :: []) none) :: []) :: [])
+      (ctx ++ .rule 1 1 hd (pre ++ .lit (.pos, .bagg 1 1 (some ⟨.le, .sym (.num 1)⟩) .sum
+        ([] ++ ([.sym (.num 1), .var "Y"], A.cond) :: []) none) :: []) :: []) :=
+  (C08_remove_weaker_copy_in_condition P A 1 1 hd pre [] _ check.2 ctx []).2 .pos 1 1 _ none .sum [] [] _ check.1
+end C08condEx
 
 /-- `api.optimize` (read from the source on every run) constructs this pass with the current program and the caller's
 own declaration lists, under the parameter names the class declares, and replaces the current program by its result -/
